@@ -240,19 +240,20 @@ class TrigStub:
     if not cur_mode_sym():
       ctx = self.cctx
       c = float(ctx.model.get(name + "_cos", 1)); s = float(ctx.model.get(name + "_sin", 0))
-      return math.atan2(s, c)
+      return math.atan2(s, c) % (2 * math.pi) if (lo is not None and Fraction(hi) > 1) else math.atan2(s, c)
     ctx = cur()
     th = ctx.real(name)
     c = ctx.real(name + "_cos"); s = ctx.real(name + "_sin")
     ctx._add((c * c + s * s - 1).n == 0)
     if lo is not None and hi is not None:
+      # theta ranges over the OPEN interval (lo*pi, hi*pi)
       lo, hi = Fraction(lo), Fraction(hi)
-      if 0 <= lo and hi <= 1:
-        ctx._add(s.n >= 0 if (lo == 0 or hi == 1) else s.n > 0)
-        if lo > 0 and hi < 1: ctx._add(s.n > 0)
-        if lo == 0 and hi == 1: pass
-      if 0 <= lo and hi <= Fraction(1, 2): ctx._add(c.n >= 0)
-      if Fraction(1, 2) <= lo and hi <= 1: ctx._add(c.n <= 0)
+      PI = frac_of_float(math.pi)
+      ctx._add(z3.And(th.n > RV(lo * PI), th.n < RV(hi * PI)))
+      if 0 <= lo and hi <= 1: ctx._add(s.n > 0)
+      if 1 <= lo and hi <= 2: ctx._add(s.n < 0)
+      if 0 <= lo and hi <= Fraction(1, 2): ctx._add(c.n > 0)
+      if Fraction(1, 2) <= lo and hi <= 1: ctx._add(c.n < 0)
     self.base.append((th, c, s))
     return th
 
